@@ -63,7 +63,7 @@ SPEC = dict(
         "assumption), C24_no_replay, C24_authentic (hypothesis Unforgeable), C24_drops_reported (every assigned number is "
         "enqueued, held or reported dropped; FIFO; a session is a contiguous segment), C24_checkpoint (Unforgeable + "
         "CollisionFree + ordered channel + non-empty payloads + no local apply failure: at every verified checkpoint the "
-        "session's applied entries are exactly a prefix of what the sender emitted). The last clause of the property is "
+        "session's applied entries are exactly a prefix of what the sender emitted). C24_checkpoint_hash_scope_tied / C24_checkpoint_source consume the regenerated scope of the running hash (whole session on both sides; a per-window hash makes the gap-free clause false and breaks that obligation by name). The last clause of the property is "
         "FALSE of the current source for >= 2 producers: C24_healthy_witness (4-step schedule) and C24_healthy_partial under the "
         "decidable carve-out (atomic fact or one producer); C24_healthy_source turns it into the full theorem once factgen "
         "sees assignment and enqueue in one critical section. The LTS is tied to the code by trace refinement: the real "
